@@ -1340,11 +1340,12 @@ package ucfg
 //@ ensures [restore] deref(opts).activeFields == deref(parentFields)
 
 //@ func reifyMap :: opts, to, from, validators -> err
-//@ props C08
+//@ props C08 C04
 //@ norte
 //@ requires opts != nil && from != nil && from.fields != nil
 //@ modifies *
-//@ ensures [scope] opts.activeFields == old(opts.activeFields)
+//@ ensures [scope @C08] opts.activeFields == old(opts.activeFields)
+//@ ensures [validated @C04] err == nil ==> recValidW(to, validators)
 
 //@ func (cfgSub).reify$1
 //@ props C08
@@ -1682,6 +1683,8 @@ package ucfg
 // are disjoint storage). The traversal obligation: every element that is not taken from the configuration - a
 // pre-filled default kept by the merge policy - is validated before the container is returned.
 //@ ghost func recValid(v reflect.Value) bool
+// recValidW(v, validators): the same, preceded by the validators of the field that holds v
+//@ ghost func recValidW(v reflect.Value, validators []validatorTag) bool
 
 //@ func tryRecursiveValidate :: val, opts, validators -> result
 //@ props C04 C07
@@ -1689,6 +1692,7 @@ package ucfg
 //@ modifies *
 //@ rvwrites pointeeStore()
 //@ ensures [naming !unproved] validators == nil ==> (result == nil) == recValid(val)
+//@ ensures [naming_with !unproved] (result == nil) == recValidW(val, validators)
 
 //@ func reifyDoArray :: opts, to, elemT, start, val, arr -> r, err
 //@ props C04 C07
